@@ -142,6 +142,9 @@ func Eq(a, b T) T {
 	if a.S == b.S {
 		return Bool(true)
 	}
+	if a.S > b.S { // canonical argument order, so that syntactically equal facts are recognised
+		a, b = b, a
+	}
 	return App(SBool, "=", a, b)
 }
 
